@@ -70,6 +70,8 @@ where
     /// value is the preimage, if successful.
     #[instrument(level = "trace", skip(self))]
     async fn pay(&self, req: PaymentRequest) -> Result<Vec<u8>> {
+        #[cfg(breez_trampoline_verif)]
+        use crate::verif::seam::SystemTime;
         let pay_req = if self.xpay {
             PayRequest {
                 amount_msat: req.amount_msat.map(Amount::from_msat),
